@@ -463,6 +463,49 @@ fn build_corpus(ctx: &Ctx, env_key: &KeyPair) -> Corpus {
 			der.push(("cert", ca.der));
 		}
 	}
+	// directed: importable objects that carry text another tool wrote unchecked (valid UTF-8, not IA5, in
+	// dNSName / rfc822Name / URI). If the import lets them in, generation gets values no constructor admits.
+	{
+		let mut p = CertificateParams::default();
+		p.is_ca = IsCa::Ca(BasicConstraints::Unconstrained);
+		p.subject_alt_names = vec![
+			SanType::DnsName("muenchen.example".try_into().unwrap()),
+			SanType::Rfc822Name("mueller@example.com".try_into().unwrap()),
+			SanType::URI("https://example.com/gruesse".try_into().unwrap()),
+		];
+		if let Ok(Ok(c)) = crate::guard(|| p.self_signed(env_key)) {
+			for (from, to) in [(&b"muenchen"[..], &b"m\xc3\xbcnchen"[..]), (&b"mueller"[..], &b"m\xc3\xbcller"[..]), (&b"gruesse"[..], &b"gr\xc3\xbcsse"[..])] {
+				let mut d = c.der().to_vec();
+				if let Some(pos) = d.windows(from.len()).position(|w| w == from) {
+					d[pos..pos + from.len()].copy_from_slice(to);
+					pem.push(pemx::encode("CERTIFICATE", &d, "\n"));
+					der.push(("cert", d));
+				}
+			}
+		}
+		for name in ["m\u{fc}nchen.example", "xn--mnchen-3ya.example"] {
+			let made = (|| -> Result<Vec<u8>, openssl::error::ErrorStack> {
+				let pk = openssl::pkey::PKey::generate_ed25519()?;
+				let mut b = openssl::x509::X509ReqBuilder::new()?;
+				let mut nb = openssl::x509::X509NameBuilder::new()?;
+				nb.append_entry_by_text("CN", "requester")?;
+				b.set_subject_name(&nb.build())?;
+				b.set_pubkey(&pk)?;
+				b.set_version(0)?;
+				let mut exts = openssl::stack::Stack::new()?;
+				let mut san = openssl::x509::extension::SubjectAlternativeName::new();
+				san.dns(name);
+				exts.push(san.build(&b.x509v3_context(None))?)?;
+				b.add_extensions(&exts)?;
+				b.sign(&pk, unsafe { openssl::hash::MessageDigest::from_ptr(std::ptr::null()) })?;
+				b.build().to_der()
+			})();
+			if let Ok(d) = made {
+				pem.push(pemx::encode("CERTIFICATE REQUEST", &d, "\n"));
+				der.push(("csr", d));
+			}
+		}
+	}
 	// CSRs
 	for b in crate::mon::c06::rcgen_csrs(&mut rng, &pool, ctx.scale(12, 60) as usize) {
 		pem.push(pemx::encode("CERTIFICATE REQUEST", &b.der, "\n"));
